@@ -28,6 +28,7 @@ type Replay struct {
 	Rate *RateCase `json:"rate,omitempty"`
 	Srv  *SrvCase  `json:"server,omitempty"`
 	Race *RaceCase `json:"race,omitempty"`
+	WS   *WSCase   `json:"websocket,omitempty"`
 }
 
 // TestReplay re-executes a saved JSON case (VERIF_REPLAY=path).
@@ -52,6 +53,8 @@ func TestReplay(t *testing.T) {
 			runRate(t, *r.Rate)
 		case r.Srv != nil:
 			runSrv(t, *r.Srv)
+		case r.WS != nil:
+			runWS(t, *r.WS)
 		case r.Race != nil:
 			runRace(t, *r.Race)
 			return
